@@ -492,6 +492,362 @@ pub fn explore_cnf(clauses: &[Clause], n: usize, max_open: usize, state_cap: u64
     r
 }
 
+/// second regime, without any merging of states: every decide / pop sequence of at most `depth`
+/// calls (at most `max_open` open decisions) on a fresh solver, each step checked like a BFS
+/// transition. The BFS de-duplicates on the hook snapshot, which names the fields the solver had
+/// when the hook was written; state that lives anywhere else (a memo, a queue, a lazily restored
+/// structure) is invisible to that key and would be merged away. Here nothing is merged.
+/// `assigned_too`: also decide variables that already have a value.
+pub fn explore_cnf_unmerged(clauses: &[Clause], n: usize, max_open: usize, depth: usize, assigned_too: bool) -> CnfResult {
+    let pb = Problem::new(clauses, n);
+    let mut r = CnfResult { states: 0, transitions: 0, max_stack: 0, unsat_results: 0, sat_states: 0, pops: 0, violation: None, initially_unsat: false };
+    let (s0, t0) = match construct(&pb) {
+        Err(e) => {
+            r.violation = Some((vec![], e));
+            return r;
+        }
+        Ok(None) => {
+            r.initially_unsat = true;
+            return r;
+        }
+        Ok(Some(x)) => x,
+    };
+    let nv = to_cnf(clauses).num_vars();
+    let mut hash_to_res: HashMap<u128, Vec<Vec<(usize, bool)>>> = HashMap::new();
+    {
+        let top = t0.levels.last().unwrap();
+        hash_to_res.insert(top.hash, pb.residual(top.tmask, top.fmask));
+    }
+    struct Cx<'p, 'c> {
+        pb: &'p Problem<'c>,
+        nv: usize,
+        max_open: usize,
+        assigned_too: bool,
+        hash_to_res: HashMap<u128, Vec<Vec<(usize, bool)>>>,
+    }
+    fn go(cx: &mut Cx, r: &mut CnfResult, s: &SATSolver, t: &Tracker, hist: &mut Vec<Act>, left: usize) -> bool {
+        if left == 0 {
+            r.states += 1; // complete sequences
+            return true;
+        }
+        let top = t.levels.last().unwrap();
+        let mut acts: Vec<Act> = Vec::new();
+        if t.decisions.len() < cx.max_open {
+            for v in 0..cx.nv {
+                if cx.assigned_too || ((top.tmask | top.fmask) >> v) & 1 == 0 {
+                    acts.push(Act::Decide(v as u8, true));
+                    acts.push(Act::Decide(v as u8, false));
+                }
+            }
+        }
+        if !t.decisions.is_empty() {
+            acts.push(Act::Pop);
+        }
+        for a in acts {
+            let mut s2 = s.verif_clone();
+            let mut t2 = t.clone();
+            let depth_before = t2.levels.len();
+            hist.push(a);
+            r.transitions += 1;
+            if let Err(e) = t2.apply(&mut s2, cx.pb, a) {
+                r.violation = Some((hist.clone(), e));
+                return false;
+            }
+            match a {
+                Act::Pop => r.pops += 1,
+                Act::Decide(_, _) => {
+                    if t2.levels.len() == depth_before {
+                        r.unsat_results += 1;
+                    }
+                }
+            }
+            r.max_stack = r.max_stack.max(t2.decisions.len());
+            let top = t2.levels.last().unwrap();
+            let res_now = cx.pb.residual(top.tmask, top.fmask);
+            match cx.hash_to_res.get(&top.hash) {
+                Some(old) => {
+                    if *old != res_now {
+                        r.violation = Some((hist.clone(), format!("hash {} is shared by two states with different residual formulas: {:?} vs {:?}", top.hash, old, res_now)));
+                        return false;
+                    }
+                }
+                None => {
+                    cx.hash_to_res.insert(top.hash, res_now);
+                }
+            }
+            if !go(cx, r, &s2, &t2, hist, left - 1) {
+                return false;
+            }
+            hist.pop();
+        }
+        true
+    }
+    let mut cx = Cx { pb: &pb, nv, max_open, assigned_too, hash_to_res };
+    let mut hist = Vec::new();
+    go(&mut cx, &mut r, &s0, &t0, &mut hist, depth);
+    r
+}
+
+/// third regime: unmerged sequences on a solver that is NEVER OBSERVED along the way. The public
+/// observers (cur_hash, is_sat, is_set, difference_iter) are calls on the object too; a harness that
+/// reads all of them after every step can only ever see histories in which every decision is
+/// followed by every query (an observer that fills a lazy field heals the very state it looks at).
+/// Here the path solver only receives decide / pop; after every call a *copy* of it is observed once
+/// (hash and flag first, then the assignment is reconstructed by unwinding the copy level by level)
+/// and thrown away, so the next call on the path happens with no query in between.
+pub fn explore_cnf_unobserved(clauses: &[Clause], n: usize, max_open: usize, depth: usize, assigned_too: bool) -> CnfResult {
+    let pb = Problem::new(clauses, n);
+    let mut r = CnfResult { states: 0, transitions: 0, max_stack: 0, unsat_results: 0, sat_states: 0, pops: 0, violation: None, initially_unsat: false };
+    let cnf = to_cnf(pb.clauses);
+    let s0 = match guarded(|| SATSolver::new(cnf)) {
+        Ok(Some(s)) => s,
+        Ok(None) => {
+            if pb.f != 0 {
+                r.violation = Some((vec![], "construction reported UNSAT although the CNF has a model".into()));
+            }
+            r.initially_unsat = true;
+            return r;
+        }
+        Err(p) => {
+            r.violation = Some((vec![], format!("SATSolver::new panicked: {}", p)));
+            return r;
+        }
+    };
+    let nv = to_cnf(clauses).num_vars();
+    struct Cx<'p, 'c> {
+        pb: &'p Problem<'c>,
+        nv: usize,
+        max_open: usize,
+        assigned_too: bool,
+        hash_to_res: HashMap<u128, Vec<Vec<(usize, bool)>>>,
+    }
+    /// observe a copy: (tmask, fmask, hash, sat)
+    fn look(cx: &mut Cx, s: &SATSolver, open: usize) -> Result<Obs, String> {
+        let n = cx.pb.n;
+        let mut c = s.verif_clone();
+        let got = guarded(|| -> Result<Obs, String> {
+            let hash = c.cur_hash();
+            let sat = c.is_sat();
+            let mut set_mask = 0u8;
+            for v in 0..n {
+                if c.is_set(VarLabel::new(v as u64)) {
+                    set_mask |= 1 << v;
+                }
+            }
+            let (mut t, mut f) = (0u8, 0u8);
+            let mut top = (0u8, 0u8);
+            for k in (0..=open).rev() {
+                let (mut dt, mut df) = (0u8, 0u8);
+                for l in c.difference_iter() {
+                    let v = l.label().value_usize();
+                    if v >= n {
+                        return Err(format!("difference_iter reports variable {} outside the CNF", v));
+                    }
+                    if l.polarity() {
+                        dt |= 1 << v;
+                    } else {
+                        df |= 1 << v;
+                    }
+                }
+                if k == open {
+                    top = (dt, df);
+                }
+                t |= dt;
+                f |= df;
+                if k > 0 {
+                    c.pop();
+                }
+            }
+            if t & f != 0 {
+                return Err(format!("a variable is reported both true and false (true {:03b}, false {:03b})", t, f));
+            }
+            if set_mask != (t | f) {
+                return Err(format!("is_set says {:03b} but the literals reported level by level say {:03b}", set_mask, t | f));
+            }
+            Ok(Obs { tmask: t, fmask: f, hash, sat, diff: top })
+        });
+        match got {
+            Ok(x) => x,
+            Err(p) => Err(format!("a public observer (cur_hash / is_sat / is_set / difference_iter / pop while unwinding a copy) panicked: {}", p)),
+        }
+    }
+    fn judge(cx: &mut Cx, obs: &Obs, decisions: &[(u8, bool)]) -> Result<(), String> {
+        let t = Tracker { n: cx.pb.n, levels: vec![obs.clone()], decisions: decisions.to_vec() };
+        t.check_state(cx.pb)?;
+        let res_now = cx.pb.residual(obs.tmask, obs.fmask);
+        match cx.hash_to_res.get(&obs.hash) {
+            Some(old) => {
+                if *old != res_now {
+                    return Err(format!("hash {} is shared by two states with different residual formulas: {:?} vs {:?}", obs.hash, old, res_now));
+                }
+            }
+            None => {
+                cx.hash_to_res.insert(obs.hash, res_now);
+            }
+        }
+        Ok(())
+    }
+    fn go(cx: &mut Cx, r: &mut CnfResult, s: &SATSolver, decisions: &mut Vec<(u8, bool)>, seen: &mut Vec<Obs>, hist: &mut Vec<Act>, left: usize) -> bool {
+        if left == 0 {
+            r.states += 1;
+            return true;
+        }
+        let cur = seen.last().unwrap().clone();
+        let mut acts: Vec<Act> = Vec::new();
+        if decisions.len() < cx.max_open {
+            for v in 0..cx.nv {
+                if cx.assigned_too || ((cur.tmask | cur.fmask) >> v) & 1 == 0 {
+                    acts.push(Act::Decide(v as u8, true));
+                    acts.push(Act::Decide(v as u8, false));
+                }
+            }
+        }
+        if !decisions.is_empty() {
+            acts.push(Act::Pop);
+        }
+        for a in acts {
+            let mut s2 = s.verif_clone();
+            hist.push(a);
+            r.transitions += 1;
+            let mut pushed = false;
+            let mut popped: Option<((u8, bool), Obs)> = None;
+            match a {
+                Act::Decide(v, b) => {
+                    let res = match guarded(|| s2.decide(to_lit((v as usize, b)))) {
+                        Ok(x) => x,
+                        Err(p) => {
+                            r.violation = Some((hist.clone(), format!("decide panicked: {}", p)));
+                            return false;
+                        }
+                    };
+                    if matches!(res, DecisionResult::UNSAT) {
+                        r.unsat_results += 1;
+                        let mut d = decisions.clone();
+                        d.push((v, b));
+                        if cx.pb.premise(&d) != 0 {
+                            r.violation = Some((hist.clone(), format!("decide({}x{}) reported UNSAT although a model of the CNF extends the decisions", if b { "" } else { "-" }, v + 1)));
+                            return false;
+                        }
+                        match look(cx, &s2, decisions.len()) {
+                            Ok(o) => {
+                                if o != cur {
+                                    r.violation = Some((hist.clone(), "an UNSAT decision changed the observable state".into()));
+                                    return false;
+                                }
+                            }
+                            Err(e) => {
+                                r.violation = Some((hist.clone(), format!("after UNSAT: {}", e)));
+                                return false;
+                            }
+                        }
+                    } else {
+                        decisions.push((v, b));
+                        pushed = true;
+                        let o = match look(cx, &s2, decisions.len()) {
+                            Ok(o) => o,
+                            Err(e) => {
+                                r.violation = Some((hist.clone(), e));
+                                return false;
+                            }
+                        };
+                        if matches!(res, DecisionResult::SAT) != o.sat {
+                            r.violation = Some((hist.clone(), format!("decide returned {:?} but is_sat() = {}", matches!(res, DecisionResult::SAT), o.sat)));
+                            return false;
+                        }
+                        if let Err(e) = judge(cx, &o, decisions) {
+                            r.violation = Some((hist.clone(), e));
+                            return false;
+                        }
+                        seen.push(o);
+                    }
+                }
+                Act::Pop => {
+                    r.pops += 1;
+                    if let Err(p) = guarded(|| s2.pop()) {
+                        r.violation = Some((hist.clone(), format!("pop panicked: {}", p)));
+                        return false;
+                    }
+                    let d = decisions.pop().unwrap();
+                    let o_old = seen.pop().unwrap();
+                    popped = Some((d, o_old));
+                    let want = seen.last().unwrap().clone();
+                    match look(cx, &s2, decisions.len()) {
+                        Ok(o) => {
+                            if o != want {
+                                r.violation = Some((hist.clone(), format!("pop did not restore the state before the matching decision: now {:?}, before {:?}", o, want)));
+                                return false;
+                            }
+                        }
+                        Err(e) => {
+                            r.violation = Some((hist.clone(), format!("after pop: {}", e)));
+                            return false;
+                        }
+                    }
+                }
+            }
+            r.max_stack = r.max_stack.max(decisions.len());
+            if !go(cx, r, &s2, decisions, seen, hist, left - 1) {
+                return false;
+            }
+            if pushed {
+                decisions.pop();
+                seen.pop();
+            }
+            if let Some((d, o)) = popped {
+                decisions.push(d);
+                seen.push(o);
+            }
+            hist.pop();
+        }
+        true
+    }
+    let mut cx = Cx { pb: &pb, nv, max_open, assigned_too, hash_to_res: HashMap::new() };
+    let o0 = match look(&mut cx, &s0, 0) {
+        Ok(o) => o,
+        Err(e) => {
+            r.violation = Some((vec![], e));
+            return r;
+        }
+    };
+    if let Err(e) = judge(&mut cx, &o0, &[]) {
+        r.violation = Some((vec![], e));
+        return r;
+    }
+    let mut seen = vec![o0];
+    let mut decisions = Vec::new();
+    let mut hist = Vec::new();
+    go(&mut cx, &mut r, &s0, &mut decisions, &mut seen, &mut hist, depth);
+    r
+}
+
+/// the 4-variable family of the unmerged regime: one binary and one ternary clause, every choice
+/// of variables and polarities (24 x 32 clause pairs)
+pub fn chain_family4() -> Vec<Vec<Clause>> {
+    let mut bins: Vec<Clause> = Vec::new();
+    let mut terns: Vec<Clause> = Vec::new();
+    for a in 0..4usize {
+        for b in (a + 1)..4 {
+            for pa in [true, false] {
+                for pb in [true, false] {
+                    bins.push(vec![(a, pa), (b, pb)]);
+                }
+            }
+            for c in (b + 1)..4 {
+                for m in 0..8usize {
+                    terns.push(vec![(a, m & 1 == 1), (b, m & 2 == 2), (c, m & 4 == 4)]);
+                }
+            }
+        }
+    }
+    let mut out = Vec::new();
+    for b in bins.iter() {
+        for t in terns.iter() {
+            out.push(vec![b.clone(), t.clone()]);
+        }
+    }
+    out
+}
+
 /// replay a history from a fresh solver with the public API only
 pub fn replay_history(clauses: &[Clause], n: usize, hist: &[Act]) -> Result<(), (usize, String)> {
     let pb = Problem::new(clauses, n);
@@ -688,6 +1044,45 @@ pub fn run(ctx: &Ctx) -> Report {
         rep.bound("n5_regrouped_literals", json!({"variables": 5, "clauses": 4, "cnfs": cnfs.len(), "max_open_decisions": open}));
         rep.merge(fam);
     }
+    // unmerged call sequences (no de-duplication at all): every CNF with <= 2 clauses over 3 variables,
+    // and the binary + ternary clause pairs over 4 variables
+    {
+        let types = clause_types(3);
+        let mut cnfs: Vec<(Vec<Clause>, bool)> = multisets(types.len(), 2).into_iter().map(|ms| (ms.iter().map(|&i| types[i].clone()).collect(), true)).collect();
+        let n3 = cnfs.len();
+        cnfs.extend(chain_family4().into_iter().map(|c| (c, false)));
+        ctx.rotate(&mut cnfs);
+        let (d3, d4, open4) = (ctx.tier.pick(5, 6), ctx.tier.pick(6, 7), ctx.tier.pick(2, 3));
+        let chunks: Vec<&[(Vec<Clause>, bool)]> = cnfs.chunks(8).collect();
+        let fam = par_run(ctx, &chunks, |_, chunk| {
+            let mut r = Report::default();
+            r.exhaustive = true;
+            for (clauses, small) in chunk.iter() {
+                let nvars = num_vars(clauses);
+                let (open, depth) = if *small { (nvars + 1, d3) } else { (open4, d4) };
+                for unobserved in [false, true] {
+                    let res = if unobserved { explore_cnf_unobserved(clauses, nvars, open, depth, *small) } else { explore_cnf_unmerged(clauses, nvars, open, depth, *small) };
+                    r.transitions += res.transitions;
+                    r.add_extra(if unobserved { "unobserved_sequences" } else { "unmerged_sequences" }, res.states);
+                    r.add_extra(if unobserved { "unobserved_steps" } else { "unmerged_steps" }, res.transitions);
+                    r.add_extra("unsat_decisions", res.unsat_results);
+                    r.add_extra("pops", res.pops);
+                    if let Some((hist, what)) = res.violation {
+                        r.violation(
+                            "solver-state-violates-statement",
+                            format!("cnf {} after {:?} ({}): {}", cnf_json(clauses), hist, if unobserved { "unmerged sequences, no query between the calls" } else { "unmerged sequences" }, what),
+                            json!({"kind": if unobserved { "solver_unobserved" } else { "solver" }, "cnf": cnf_json(clauses), "n": nvars, "max_open": open, "history": hist.iter().map(act_json).collect::<Vec<_>>()}),
+                        );
+                    }
+                }
+                r.traces += 1;
+            }
+            r
+        });
+        rep.add_extra("unmerged_cnfs", fam.traces);
+        rep.bound("unmerged_sequences", json!({"n3_le2_clauses": {"cnfs": n3, "depth": d3, "decide": "every literal, assigned or not", "max_open_decisions": "num_vars+1"}, "n4_binary_plus_ternary": {"cnfs": cnfs.len() - n3, "depth": d4, "decide": "unassigned variables", "max_open_decisions": open4}, "merging": "none"}));
+        rep.merge(fam);
+    }
     rep.evaluations = rep.transitions;
     let unsat = rep.extra.get("unsat_decisions").and_then(|v| v.as_u64()).unwrap_or(0);
     let sat = rep.extra.get("sat_states").and_then(|v| v.as_u64()).unwrap_or(0);
@@ -726,6 +1121,18 @@ pub fn replay(_ctx: &Ctx, case: &Value) -> Report {
         .as_array()
         .map(|a| a.iter().filter_map(act_from_json).collect())
         .unwrap_or_default();
+    if case.get("kind").and_then(|k| k.as_str()) == Some("solver_unobserved") {
+        // re-run the unobserved enumeration of this CNF to the depth of the recorded history
+        let open = case["max_open"].as_u64().map(|x| x as usize).unwrap_or(n + 1);
+        for assigned_too in [true, false] {
+            let res = explore_cnf_unobserved(&clauses, n, open, hist.len(), assigned_too);
+            if let Some((h, what)) = res.violation {
+                rep.violation("solver-state-violates-statement", format!("after {:?} (no query between the calls): {}", h, what), case.clone());
+                return rep;
+            }
+        }
+        return rep;
+    }
     // twice: the same history must give the same verdict
     let a = replay_history(&clauses, n, &hist);
     let b = replay_history(&clauses, n, &hist);
